@@ -171,8 +171,124 @@ func c02Cond(w *bytes.Buffer, lean string, fd *ast.FuncDecl, what string, mentio
 	fmt.Fprintf(w, "def %s : String := %s\n", lean, leanStr(strings.Join(strings.Fields(src(i.Cond)), " ")))
 }
 
+// c02Expr renders a selector / index / call chain as dotted text.
+func c02Expr(e ast.Expr) string {
+	switch x := e.(type) {
+	case *ast.Ident:
+		return x.Name
+	case *ast.SelectorExpr:
+		return c02Expr(x.X) + "." + x.Sel.Name
+	case *ast.IndexExpr:
+		return c02Expr(x.X) + "[]"
+	case *ast.CallExpr:
+		return c02Expr(x.Fun) + "()"
+	case *ast.TypeAssertExpr:
+		return c02Expr(x.X)
+	case *ast.ParenExpr:
+		return c02Expr(x.X)
+	case *ast.StarExpr:
+		return c02Expr(x.X)
+	}
+	return "?"
+}
+
+// c02Clears lists, in source order, the state a function destroys: delete(m, k) on a
+// selector, X.Delete(k) on File fields, and assignments of nil to a field.
+func c02Clears(fd *ast.FuncDecl) []string {
+	var out []string
+	if fd == nil || fd.Body == nil {
+		return out
+	}
+	ast.Inspect(fd.Body, func(n ast.Node) bool {
+		switch x := n.(type) {
+		case *ast.CallExpr:
+			if id, ok := x.Fun.(*ast.Ident); ok && id.Name == "delete" && len(x.Args) == 2 {
+				out = append(out, "delete "+c02Expr(x.Args[0]))
+			}
+			if sel, ok := x.Fun.(*ast.SelectorExpr); ok && sel.Sel.Name == "Delete" && strings.HasPrefix(c02Expr(sel.X), "f.") {
+				out = append(out, c02Expr(sel.X)+".Delete")
+			}
+		case *ast.AssignStmt:
+			if len(x.Lhs) == len(x.Rhs) {
+				for i := range x.Lhs {
+					if id, ok := x.Rhs[i].(*ast.Ident); ok && id.Name == "nil" {
+						if l := c02Expr(x.Lhs[i]); strings.Contains(l, ".") {
+							out = append(out, l+"=nil")
+						}
+					}
+				}
+			}
+		}
+		return true
+	})
+	return out
+}
+
+// c02AltPersisted: the writer builds X.AlternateContent only inside
+// `if X.DecodeAlternateContent != nil { … }` (so that the element survives the clearing of
+// the decode-only field and is written again by the next save).
+func c02AltPersisted(fd *ast.FuncDecl) bool {
+	if fd == nil || fd.Body == nil {
+		return false
+	}
+	count := func(n ast.Node) int {
+		c := 0
+		ast.Inspect(n, func(m ast.Node) bool {
+			if a, ok := m.(*ast.AssignStmt); ok {
+				for _, l := range a.Lhs {
+					if strings.HasSuffix(c02Expr(l), ".AlternateContent") {
+						c++
+					}
+				}
+			}
+			return true
+		})
+		return c
+	}
+	total, inIf := count(fd.Body), 0
+	ast.Inspect(fd.Body, func(m ast.Node) bool {
+		if i, ok := m.(*ast.IfStmt); ok && strings.Contains(src(i.Cond), "DecodeAlternateContent != nil") {
+			inIf += count(i.Body)
+		}
+		return true
+	})
+	return total >= 1 && total == inIf
+}
+
 func init() {
 	addSection("C02", func(w *bytes.Buffer) {
+		w.WriteString("/-! file.go writeToZip: the part writers in call order, and the File state each of them destroys -/\n")
+		wz := funcDecl("File", "writeToZip")
+		var writers []string
+		if wz == nil {
+			fail("C02: (*File).writeToZip")
+		} else {
+			ast.Inspect(wz.Body, func(n ast.Node) bool {
+				if c, ok := n.(*ast.CallExpr); ok {
+					if sel, ok := c.Fun.(*ast.SelectorExpr); ok && c02Expr(sel.X) == "f" &&
+						(strings.HasSuffix(sel.Sel.Name, "Writer") || strings.HasSuffix(sel.Sel.Name, "Loader")) {
+						writers = append(writers, sel.Sel.Name)
+					}
+				}
+				return true
+			})
+		}
+		fmt.Fprintf(w, "def saveWriters : List String := %s\n", c02LeanList(writers))
+		w.WriteString("def writerClears : List (String × List String) := [")
+		for i, name := range writers {
+			if i > 0 {
+				w.WriteString(",")
+			}
+			fd := funcDecl("File", name)
+			if fd == nil {
+				fail("C02: writer (*File).%s", name)
+			}
+			fmt.Fprintf(w, "\n  (%s, %s)", leanStr(name), c02LeanList(c02Clears(fd)))
+		}
+		w.WriteString("]\n")
+		fmt.Fprintf(w, "def workbookAltPersisted : Bool := %v\n", c02AltPersisted(funcDecl("File", "workBookWriter")))
+		fmt.Fprintf(w, "def worksheetAltPersisted : Bool := %v\n\n", c02AltPersisted(funcDecl("File", "workSheetWriter")))
+
 		w.WriteString("/-! cell.go hasValue / rows.go hasAttr: fields tested -/\n")
 		hv, ok := c02FieldTests("xlsxC", "hasValue")
 		if !ok {
